@@ -431,3 +431,64 @@ Theorem C02_find_all_after_load_history : forall ops t d, In t (trees (run_x ops
   Permutation (lk_find_all_did t d) (nodes_with (forest_of t) d).
 Proof. intros ops t d Ht. apply find_all_exact. now apply (C02_after_load_history ops). Qed.
 Print Assumptions C02_find_all_after_load_history.
+
+(* ====================================================================================== *)
+(* Audit C02 (low findings 4, 5; medium finding 3): tree[key] is EXACT on every route, not only for a present int/str
+   data_id ([C02_getitem_sound] alone is satisfied by Err EKey and by "any live node").
+   Resolution of the key (Tree.__getitem__): a live node_id -> that node; else a present int/str key -> the key itself as
+   data_id; else calc_data_id(key) (for a data object: through the tree's callback; for a foreign int/str: the harness
+   supplied value [fb]).  Once the key is resolved to the data_id e, the outcome is determined by the carriers of e. *)
+Theorem C02_getitem_by_node_id : forall t, WF t -> forall n fb, In n (ids (forest_of t)) -> lk_getitem t (Lookup.LNid n fb) = Ok [n].
+Proof.
+  intros t H n fb Hn. unfold lk_getitem. cbn [lk_candidates]. apply (C02_find_by_node_id t H n) in Hn. now rewrite Hn.
+Qed.
+Print Assumptions C02_getitem_by_node_id.
+
+Theorem C02_getitem_resolution : forall t, WF t -> forall k,
+  match k with
+  | Lookup.LNid n fb => ~ In n (ids (forest_of t)) -> lk_candidates t k = option_map (lk_find_all_did t) fb
+  | Lookup.LDid e fb => lk_candidates t k = if idx_has e (idx t) then Some (lk_find_all_did t e) else option_map (lk_find_all_did t) fb
+  | Lookup.LData d a => lk_candidates t k =
+                 match a with
+                 | Some e => if idx_has e (idx t) then Some (lk_find_all_did t e) else option_map (lk_find_all_did t) (calc_id (calc t) d)
+                 | None => option_map (lk_find_all_did t) (calc_id (calc t) d)
+                 end
+  end.
+Proof.
+  intros t H [n fb|e fb|d a]; cbn [lk_candidates]; try reflexivity. intros Hn.
+  destruct (lk_find_nodeid t n) as [r|] eqn:F; [|reflexivity]. exfalso. apply Hn. apply (C02_find_by_node_id t H n).
+  unfold lk_find_nodeid in *. destruct (existsb (Nat.eqb n) (reg t)); [reflexivity|discriminate].
+Qed.
+Print Assumptions C02_getitem_resolution.
+
+Theorem C02_getitem_classified : forall t, WF t -> forall k e, lk_candidates t k = Some (lk_find_all_did t e) ->
+  (forall m, lk_getitem t k = Ok [m] <-> nodes_with (forest_of t) e = [m]) /\
+  (lk_getitem t k = Err EKey <-> nodes_with (forest_of t) e = []) /\
+  (lk_getitem t k = Err EAmbiguous <-> 2 <= length (nodes_with (forest_of t) e)).
+Proof.
+  intros t H k e E. unfold lk_getitem. rewrite E. assert (P := C02_find_all_exact t H e).
+  destruct (lk_find_all_did t e) as [|a [|b l]].
+  - apply Permutation_nil in P. rewrite P. repeat split; try discriminate; auto. cbn. intros X. inversion X.
+  - apply Permutation_length_1_inv in P. rewrite P. repeat split; try discriminate.
+    + now intros [= ->]. + now intros [= ->]. + cbn. intros X. inversion X as [|? X']. inversion X'.
+  - assert (L := Permutation_length P). cbn [length] in L. repeat split; try discriminate.
+    + intros X. rewrite X in L. discriminate L. + intros X. rewrite X in L. discriminate L. + intros _. rewrite <- L. apply le_n_S, le_n_S, Nat.le_0_l.
+Qed.
+Print Assumptions C02_getitem_classified.
+
+(* find_first(data), which the correspondence probes ([lk_find_first_data]) *)
+Theorem C02_find_first_data : forall t, WF t -> forall dat e, calc_id (calc t) dat = Some e ->
+  match lk_find_first_data t dat with
+  | Some (Some n) => In n (ids (forest_of t)) /\ did_of n (forest_of t) = Some e
+  | Some None => forall n, In n (ids (forest_of t)) -> did_of n (forest_of t) <> Some e
+  | None => False
+  end.
+Proof. intros t H dat e C. unfold lk_find_first_data. rewrite C. cbn. apply (C02_find_first t H e). Qed.
+Print Assumptions C02_find_first_data.
+
+(* by node_id with EXPLICIT node ids (the registry as a key -> node map; Mut/MachineNodeId.v, see Properties/C01.v) *)
+From NT Require Import MachineNodeId.
+Theorem C02_find_by_key_exact : forall wk t key n, WFk wk -> In t (trees (kbase wk)) ->
+  (lk_key (kkeys wk) t key = Some n <-> In n (ids (forest_of t)) /\ nkey_of (kkeys wk) n = key).
+Proof. exact lk_key_exact. Qed.
+Print Assumptions C02_find_by_key_exact.
